@@ -13,7 +13,9 @@ from vf import core
 
 LEVEL = "exploration"
 
-ALPHABET = "0179afxbo_ul -gX+"  # 17 symbols (DESIGN §21)
+# 17 symbols of DESIGN §21 + one non-ASCII decimal digit (ARABIC-INDIC DIGIT THREE: str.isdigit() and int() accept
+# it, the documented grammar does not)
+ALPHABET = "0179afxbo_ul -gX+\u0663"
 
 
 # ---------------------------------------------------------------------------------------------
@@ -125,6 +127,8 @@ def _shape(s: str) -> str:
             out.append("D")
         elif ch in "af":
             out.append("H")
+        elif ord(ch) > 127:
+            out.append("U")
         else:
             out.append(ch)
     return "".join(out)
@@ -258,6 +262,12 @@ def w_misc(task: Any) -> dict:
                     if st != "ok" or len(r) != expl or r[:ln] != data:
                         viol.append(("C20.align_block", f"pad={p!r}", f"len={ln} al={al}: {st}"))
                         continue
+                    # the documented input type includes bytearray: same answer, and the caller's buffer is not touched
+                    ba = bytearray(data)
+                    st2, r2 = call(m.align_block, ba, al, p)
+                    if st2 != "ok" or bytes(r2) != r or bytes(ba) != data:
+                        viol.append(("C20.align_block", "bytearray-input" + (":mutated" if bytes(ba) != data else ""),
+                                     f"len={ln} al={al} pad={p!r}: {st2}, input now {len(ba)} bytes"))
                     tail = r[ln:]
                     exp_tail = {None: b"\0", 0: b"\0", 0xFF: b"\xff", 0xA5: b"\xa5", "zeros": b"\0",
                                 "ones": b"\xff", "0xA5": b"\xa5"}.get(p)
@@ -485,7 +495,7 @@ def w_misc(task: Any) -> dict:
 
 def run(ctx: core.Ctx) -> None:
     L = 5 if ctx.tier == "quick" else 6
-    ctx.rule = (f"value_to_int: every string of length <= {L} over the 17-symbol alphabet {ALPHABET!r} vs. an own "
+    ctx.rule = (f"value_to_int: every string of length <= {L} over the 18-symbol alphabet {ALPHABET!r} vs. an own "
                 "character-level recogniser; width/round trip of integer<->bytes for all v < 2^17 and 2^k±1 (k<=512) "
                 "x align x byte_cnt x endianness; align() for all n in -2..300 x a in -2..64; block helpers for all "
                 "lengths 0..70; check_range on the cube [-2,10]^3; swap/reverse helpers exhaustively on 16-bit domains; "
